@@ -26,6 +26,9 @@ def random_cell(rng, kind, scale=12.0):
     if kind == "tri":   # LAMMPS orientation, any tilt signs
         xy, xz, yz = rng.uniform(-0.45, 0.45, 3) * np.array([a, a, b])
         return np.array([[a, 0, 0], [xy, b, 0], [xz, yz, c]])
+    if kind == "rotated_ortho":     # an orthorhombic box described in a rotated frame: all angles 90 degrees, vectors not along x, y, z
+        from vmon.oracle.geometry import random_rotation
+        return np.diag([a, b, c]).dot(random_rotation(rng).T)
     if kind == "rotated":
         from vmon.oracle.geometry import random_rotation
         xy, xz, yz = rng.uniform(-0.45, 0.45, 3) * np.array([a, a, b])
